@@ -12,7 +12,7 @@ oracle:          the statement itself on what exppp wrote: (1) the scratch check
 """
 import hashlib, json, os, re, subprocess, sys, time
 from vlib import build as B, lean as L
-from tools import c07_exp as X
+from tools import c07_exp as X, c07_decl as D
 
 HERE = os.path.dirname(os.path.abspath(__file__))
 VERIF = os.path.dirname(HERE)
@@ -238,29 +238,19 @@ def oracle_ext(tools, model, src, w, t, c):
     ok, msg = tools.accepts(out)
     if not ok:
         probs.append(("rejected", "the pretty-printed text is rejected by check-express: " + " | ".join(msg.strip().split("\n")[:3])))
-    ds = X.split_decls(fold(X.lex(src)))            # input side
+    ast_src = D.parse_schema(fold(X.lex(src)))           # input side: an exception here is a machinery error
     toks_out = None
     try:
         toks_out = X.lex(body_of(out))
-        do = X.split_decls(fold(toks_out))
+        ast_out = D.parse_schema(fold(toks_out))
     except (X.LexError, X.DeclError) as ex:
-        probs.append(("unreadable", f"the pretty-printed text cannot be split into declarations ({ex}); " + (locate(out, ex) if isinstance(ex, X.LexError) else "")))
+        probs.append(("unreadable", f"the pretty-printed text cannot be read as declarations ({ex}); " + (locate(out, ex) if isinstance(ex, X.LexError) else "")))
         return probs, out
-    if set(ds) != set(do):
-        probs.append(("not-equivalent", f"declarations {sorted(set(ds) - set(do))} missing / {sorted(set(do) - set(ds))} added"))
-    else:
-        for key in ds:
-            a, b = X.no_parens(ds[key]), X.no_parens(do[key])
-            if a != b:
-                j = next((k for k in range(min(len(a), len(b))) if a[k] != b[k]), min(len(a), len(b)))
-                probs.append(("not-equivalent", f"{key[0]} {key[1]}: tokens differ (parentheses ignored): `{X.src_text(a[max(0,j-5):j+5])}` -> `{X.src_text(b[max(0,j-5):j+5])}`"))
-                break
-            sa, sb = X.assign_segments(ds[key]), X.assign_segments(do[key])
-            if len(sa) != len(sb):
-                probs.append(("not-equivalent", f"{key[0]} {key[1]}: {len(sa)} assignments/initialisers -> {len(sb)}")); break
-            bad = next((r for r in (same_expr(model, x, y, f"{key[0]} {key[1]}") for x, y in zip(sa, sb)) if r), None)
-            if bad:
-                probs.append(("not-equivalent", bad)); break
+    # normalised declaration ASTs: names, VAR, OPTIONAL, UNIQUE, FIXED, precision, bounds, ABSTRACT, labels, statement structure equal;
+    # id lists expanded; declarations keyed by (kind, name); expressions through the Lean driver
+    diff = D.compare(ast_src, ast_out, lambda a, b, where: same_expr(model, a, b, where))
+    if diff:
+        probs.append(("not-equivalent", diff))
     if ok:
         rc2, out2, err2 = tools.exppp(out, w, t, c)
         if rc2 != 0 or out2 is None:
@@ -537,7 +527,12 @@ def run(ctx):
         for f in sorted(os.listdir(cdir)) if os.path.isdir(cdir) else []:
             if f.endswith(".exp"):
                 src = open(os.path.join(cdir, f)).read()
-                n += evaluate(ctx, tools, model, src, [(w, False, False) for w in ([80, 10] if quick else WIDTHS)], label="corpus/" + f)
+                sets = [(w, False, False) for w in ([80, 10] if quick else WIDTHS)]
+                try:
+                    X.Decls(fold(X.lex(src)))
+                    n += evaluate(ctx, tools, model, src, sets, label="corpus/" + f)
+                except X.DeclError:      # declarations outside the Lean model: normalised declaration AST oracle
+                    n += evaluate_ext(ctx, tools, model, src, sets, label="corpus/" + f)
                 ctx.hist("inputs", "corpus")
         # 2. generated schemas
         feats = {}
@@ -561,14 +556,28 @@ def run(ctx):
         for i in range(next_):
             if len(ctx.violations) >= 4 or time.time() - t0 > (75 if quick else 1100):
                 break
-            g = X.GenExt(ctx.rng, feats, split_safe=not split_paren)
+            g = X.GenDecl(ctx.rng, feats, split_safe=not split_paren)
             g.simple_index = not index_paren
-            src = g.ext_schema_src()
+            src = g.schema_src(cover=(i == 0))
             ctx.hist("inputs", "generated (extended declarations)")
             evaluate_ext(ctx, tools, model, src, settings_for(ctx, True) if quick else [(w, tt, False) for w in WIDTHS for tt in (False, True)],
                          label=f"extended#{i}")
             if i == 0:
                 ctx.sample({"extended_schema": src[:1500]})
+        # grammar coverage: every non-terminal of expparse.y is mapped to a generator feature (or excluded with a reason);
+        # every mapped feature must have been generated in this run
+        ytext = open(os.path.join(B.REPO, "src/express/expparse.y")).read()
+        nts = set(re.findall(r"^([A-Za-z_]+)(?:\([A-Z]\))?\s*::=", ytext, re.M))
+        unknown = sorted(nts - set(D.NONTERMINALS))
+        wanted = {v for k, v in D.NONTERMINALS.items() if isinstance(v, str) and k in nts}
+        not_hit = sorted(f for f in wanted if not feats.get(f))
+        ctx.cov["grammar_coverage"] = {"nonterminals": len(nts), "generated": len([k for k in nts if isinstance(D.NONTERMINALS.get(k), str)]),
+                                       "excluded": {k: v[1] for k, v in D.NONTERMINALS.items() if not isinstance(v, str) and k in nts},
+                                       "unknown": unknown, "features_not_generated": not_hit}
+        if unknown:
+            ctx.broken.append(("grammar coverage", f"expparse.y has non-terminals the declaration generator does not know: {unknown}"))
+        if not_hit and not ctx.violations:
+            ctx.broken.append(("grammar coverage", f"generator features mapped to grammar productions were not generated in this run: {not_hit}"))
         ctx.cov["distribution"]["features"] = dict(sorted(feats.items()))
         # 3. thorough: shipped schemas must at least print to something accepted and stable
         if not quick and not ctx.violations:
